@@ -175,6 +175,8 @@ def run_opcodes(chk, A):
         arr = arr_of_case.get("case:" + cls)
         if not arr or arr not in T:
             continue
+        if rows[rid]["_encoding_data_index"] >= len(T[arr]["value"]):
+            continue        # out-of-range index: reported by R-ENCODING-DATA-INDEX
         data = T[arr]["value"][rows[rid]["_encoding_data_index"]]
         sname = T[arr]["ty"].split("::")[-1].split("[")[0]
         forms = by_name.get(names[rid], [])
